@@ -1101,3 +1101,44 @@ def cn(key):
             out.append(c)
         i += 1
     return "".join(out)
+
+
+def resolve_saturating(facts):
+    """`a.saturating_sub(b)` reads as `a - b` wherever the other facts entail a >= b (a slice length known to be at least the header
+    size): the rewritten fact list, for entailment at one program point"""
+    facts = list(facts)
+    for _ in range(4):
+        found = None
+        def walk(t):
+            nonlocal found
+            if found is not None or not isinstance(t, tuple):
+                return
+            if t and t[0] == "saturating" and len(t) > 2 and t[1] == "Sub":
+                a, b = t[2][0], t[2][1]
+                rest = [f for f in facts if not _contains(f, t)]
+                if entails(rest, ("cmp", "Ge", a, b)) is not None:
+                    found = (t, ("bin", "Sub", a, b, t[3] if len(t) > 3 else None))
+                    return
+            for x in t:
+                if isinstance(x, tuple):
+                    walk(x)
+        for f in facts:
+            walk(f)
+        if found is None:
+            break
+        facts = [_subst(f, found[0], found[1]) for f in facts]
+    return facts
+
+
+def _contains(t, sub):
+    if t == sub:
+        return True
+    return isinstance(t, tuple) and any(_contains(x, sub) for x in t if isinstance(x, tuple))
+
+
+def _subst(t, old, new):
+    if t == old:
+        return new
+    if isinstance(t, tuple):
+        return tuple(_subst(x, old, new) if isinstance(x, tuple) else x for x in t)
+    return t
